@@ -1,6 +1,8 @@
 #!/bin/sh
-# usage: run_check.sh <module> <tier>   (cwd = /verif)
+# usage: run_check.sh <module> [tier] [extra args]   (cwd = /verif)
 cd "$(dirname "$0")" || exit 2
 [ -x .venv/bin/python ] && .venv/bin/python -c "import z3" 2>/dev/null || ./setup.sh >/dev/null || exit 2
 export PYTHONPATH=/verif:/repo PYTHONHASHSEED=0
-exec .venv/bin/python -m "checks.$1" --tier "${2:-quick}"
+m="$1"; t="${2:-quick}"
+shift; [ $# -gt 0 ] && shift
+exec .venv/bin/python -m "checks.$m" --tier "$t" "$@"
